@@ -8,6 +8,9 @@
     5. visit_complete        every record reachable through association fields is saved
     6. visit_sound           every saved record is reachable (needs nbefore ≤ nslots)
     +  concrete counterexamples (mixed batch, back-pointer, duplicate) and a positive diamond
+    7. the repairs (VFix): a repaired guard makes its pattern flag constantly true (F27 filter -> cleanMixed, F28 root
+       -> cleanRoot, F27 filter or F29 distinct -> cleanDup); with filter + root every record exactly once
+    8. conservativity: on a graph on which the unrepaired traversal is clean every repaired traversal has the SAME log
 
   Core Lean only.
 -/
@@ -31,16 +34,34 @@ def visitG4 : VGraph :=
   { size := 2, nbefore := 1, nslots := 3, adj := [[[],[],[1,1]], []], dedupe := [true,true,true] }
 
 theorem visit_diamond_example :
-    (visitG1.run [0] []).clean = true ∧ saveCount 2 (visitG1.run [0] []).log = 1 := by decide
+    (visitG1.run {} [0] []).clean = true ∧ saveCount 2 (visitG1.run {} [0] []).log = 1 := by decide
 
 theorem visit_mixed_counterexample :
-    saveCount 2 (visitG2.run [0] []).log = 2 ∧ (visitG2.run [0] []).clean = false := by decide
+    saveCount 2 (visitG2.run {} [0] []).log = 2 ∧ (visitG2.run {} [0] []).clean = false := by decide
 
 theorem visit_backpointer_counterexample :
-    saveCount 0 (visitG3.run [0] []).log = 2 ∧ (visitG3.run [0] []).clean = false := by decide
+    saveCount 0 (visitG3.run {} [0] []).log = 2 ∧ (visitG3.run {} [0] []).clean = false := by decide
 
 theorem visit_duplicate_counterexample :
-    saveCount 1 (visitG4.run [0] []).log = 2 ∧ (visitG4.run [0] []).clean = false := by decide
+    saveCount 1 (visitG4.run {} [0] []).log = 2 ∧ (visitG4.run {} [0] []).clean = false := by decide
+
+/-- each witness keeps failing as long as ITS repair is missing, whatever the other two flags are -/
+theorem visit_mixed_needs_filter (r d : Bool) :
+    saveCount 2 (visitG2.run { filter := false, root := r, distinct := d } [0] []).log = 2 := by
+  cases r <;> cases d <;> decide
+
+theorem visit_backpointer_needs_root (f d : Bool) :
+    saveCount 0 (visitG3.run { filter := f, root := false, distinct := d } [0] []).log = 2 := by
+  cases f <;> cases d <;> decide
+
+theorem visit_duplicate_needs_filter_or_distinct (r : Bool) :
+    saveCount 1 (visitG4.run { filter := false, root := r, distinct := false } [0] []).log = 2 := by
+  cases r <;> decide
+
+/-- ... and is saved exactly once by the fully repaired traversal -/
+theorem visit_witnesses_repaired :
+    saveCount 2 (visitG2.run ⟨true, true, true⟩ [0] []).log = 1 ∧ saveCount 0 (visitG3.run ⟨true, true, true⟩ [0] []).log = 1 ∧
+    saveCount 1 (visitG4.run ⟨true, true, true⟩ [0] []).log = 1 := by decide
 
 /-! ## 1. loadOrStore / checkSaved -/
 
@@ -120,31 +141,276 @@ theorem vfoldl_back {α β : Type} (Q : β → Prop) (f : β → α → β) (l :
     simp only [List.foldl_cons]
     exact fun hq => h b a (ih _ hq)
 
+
+/-! ## the repaired guard: checkSavedR / filterSaved / distinctPtr -/
+
+theorem mem_visitBase (rf : Bool) (own : List Nat) (v : Option (List Nat)) (x : Nat) :
+    x ∈ visitBase rf own v ↔ x ∈ v.getD [] ∨ (v = none ∧ rf = true ∧ x ∈ own) := by
+  cases v with
+  | some V => simp [visitBase]
+  | none => cases rf <;> simp [visitBase]
+
+theorem visited_sub_base (rf : Bool) (own : List Nat) (v : Option (List Nat)) (x : Nat) :
+    x ∈ v.getD [] → x ∈ visitBase rf own v := fun h => (mem_visitBase rf own v x).2 (Or.inl h)
+
+theorem all_contains_congr (l A B : List Nat) (h : ∀ x, x ∈ A ↔ x ∈ B) :
+    l.all (fun e => A.contains e) = l.all (fun e => B.contains e) := by
+  induction l with
+  | nil => rfl
+  | cons x l ih =>
+    simp only [List.all_cons, ih]
+    congr 1
+    have := h x
+    by_cases hx : x ∈ A
+    · simp [hx, this.1 hx]
+    · have hb : x ∉ B := fun hb => hx (this.2 hb)
+      simp [hx, hb]
+
+theorem checkSavedR_loaded (rf : Bool) (own es : List Nat) (v : Option (List Nat)) (hne : es ≠ []) :
+    (checkSavedR rf own es v).1 = es.all (fun e => (visitBase rf own v).contains e) := by
+  cases v with
+  | some V => simp [checkSavedR, visitBase, checkSaved, loadOrStore_loaded]
+  | none =>
+    cases rf with
+    | false => simpa [checkSavedR, visitBase] using checkSaved_loaded es none hne
+    | true =>
+      simp only [checkSavedR, visitBase, if_true, loadOrStore_loaded]
+      exact all_contains_congr es _ _ (fun x => by simp [loadOrStore_mem])
+
+theorem checkSavedR_mem (rf : Bool) (own es : List Nat) (v : Option (List Nat)) (x : Nat) :
+    x ∈ (checkSavedR rf own es v).2.getD [] ↔ x ∈ es ∨ x ∈ visitBase rf own v := by
+  cases v with
+  | some V => simp [checkSavedR, visitBase, checkSaved, loadOrStore_mem]
+  | none =>
+    cases rf with
+    | false => simp [checkSavedR, visitBase, checkSaved, loadOrStore_mem]
+    | true => simp [checkSavedR, visitBase, loadOrStore_mem]
+
+theorem checkSavedR_isSome (rf : Bool) (own es : List Nat) (v : Option (List Nat)) :
+    (checkSavedR rf own es v).2.isSome = true := by
+  cases v with
+  | some V => simp [checkSavedR, checkSaved]
+  | none => cases rf <;> simp [checkSavedR, checkSaved]
+
+/-- the element-wise loop once a map exists -/
+theorem filterSaved_some (rf : Bool) (own : List Nat) (es V : List Nat) :
+    ∃ V', (filterSaved rf own es (some V)).2 = some V' ∧ (∀ x, x ∈ V' ↔ x ∈ es ∨ x ∈ V) ∧
+      (∀ x, x ∈ (filterSaved rf own es (some V)).1 ↔ x ∈ es ∧ x ∉ V) ∧
+      (filterSaved rf own es (some V)).1.Nodup := by
+  induction es generalizing V with
+  | nil => exact ⟨V, rfl, by simp, by simp [filterSaved], by simp [filterSaved]⟩
+  | cons e rest ih =>
+    have hstep : checkSavedR rf own [e] (some V) = (V.contains e, some (if V.contains e then V else e :: V)) := by
+      simp [checkSavedR, checkSaved, loadOrStore]
+    obtain ⟨V', h1, h2, h3, h4⟩ := ih (if V.contains e then V else e :: V)
+    simp only [filterSaved, hstep]
+    refine ⟨V', h1, ?_, ?_, ?_⟩
+    · intro x
+      rw [h2]
+      by_cases he : e ∈ V
+      · simp only [List.contains_eq_mem, he, decide_true, if_true, List.mem_cons]
+        constructor
+        · rintro (h | h)
+          · exact Or.inl (Or.inr h)
+          · exact Or.inr h
+        · rintro ((h | h) | h)
+          · subst h; exact Or.inr he
+          · exact Or.inl h
+          · exact Or.inr h
+      · simp only [List.contains_eq_mem, he, decide_false, Bool.false_eq_true, if_false, List.mem_cons]
+        constructor
+        · rintro (h | h | h)
+          · exact Or.inl (Or.inr h)
+          · exact Or.inl (Or.inl h)
+          · exact Or.inr h
+        · rintro ((h | h) | h)
+          · exact Or.inr (Or.inl h)
+          · exact Or.inl h
+          · exact Or.inr (Or.inr h)
+    · intro x
+      by_cases he : e ∈ V
+      · simp only [List.contains_eq_mem, he, decide_true, if_true] at h3 ⊢
+        rw [h3]
+        simp only [List.mem_cons]
+        constructor
+        · rintro ⟨h, h'⟩; exact ⟨Or.inr h, h'⟩
+        · rintro ⟨h | h, h'⟩
+          · subst h; exact absurd he h'
+          · exact ⟨h, h'⟩
+      · simp only [List.contains_eq_mem, he, decide_false, Bool.false_eq_true, if_false, List.mem_cons] at h3 ⊢
+        rw [h3]
+        constructor
+        · rintro (h | ⟨h, h'⟩)
+          · subst h; exact ⟨Or.inl rfl, he⟩
+          · exact ⟨Or.inr h, fun hv => h' (Or.inr hv)⟩
+        · rintro ⟨h | h, h'⟩
+          · exact Or.inl h
+          · by_cases hxe : x = e
+            · exact Or.inl hxe
+            · exact Or.inr ⟨h, fun hv => hv.elim hxe h'⟩
+    · by_cases he : e ∈ V
+      · simpa only [List.contains_eq_mem, he, decide_true, if_true] using h4
+      · simp only [List.contains_eq_mem, he, decide_false, Bool.false_eq_true, if_false] at h3 h4 ⊢
+        refine List.nodup_cons.2 ⟨?_, h4⟩
+        intro hmem
+        exact ((h3 e).1 hmem).2 (List.mem_cons_self)
+
+/-- the element-wise loop of the repaired guard, map or no map -/
+theorem filterSaved_spec (rf : Bool) (own es : List Nat) (v : Option (List Nat)) (hne : es ≠ []) :
+    (filterSaved rf own es v).2.isSome = true ∧
+    (∀ x, x ∈ (filterSaved rf own es v).2.getD [] ↔ x ∈ es ∨ x ∈ visitBase rf own v) ∧
+    (∀ x, x ∈ (filterSaved rf own es v).1 ↔ x ∈ es ∧ x ∉ visitBase rf own v) ∧
+    (filterSaved rf own es v).1.Nodup := by
+  cases v with
+  | some V =>
+    obtain ⟨V', h1, h2, h3, h4⟩ := filterSaved_some rf own es V
+    refine ⟨by simp [h1], ?_, by simpa [visitBase] using h3, h4⟩
+    intro x; simp [h1, h2, visitBase]
+  | none =>
+    cases es with
+    | nil => exact absurd rfl hne
+    | cons e rest =>
+      -- the first look-up creates the map
+      have hsome := checkSavedR_isSome rf own [e] none
+      have hmem := fun x => checkSavedR_mem rf own [e] none x
+      have hld := checkSavedR_loaded rf own [e] none (by simp)
+      cases hc : checkSavedR rf own [e] none with
+      | mk ld v1 =>
+        rw [hc] at hsome hmem hld
+        cases v1 with
+        | none => simp at hsome
+        | some V1 =>
+          obtain ⟨V', h1, h2, h3, h4⟩ := filterSaved_some rf own rest V1
+          simp only [filterSaved, hc]
+          replace hmem : ∀ x, x ∈ V1 ↔ x = e ∨ x ∈ visitBase rf own none := fun x => by simpa using hmem x
+          simp only [List.all_cons, List.all_nil, Bool.and_true, List.contains_eq_mem] at hld
+          refine ⟨by simp [h1], ?_, ?_, ?_⟩
+          · intro x
+            simp only [h1, Option.getD_some, h2, hmem, List.mem_cons]
+            constructor
+            · rintro (h | h | h)
+              · exact Or.inl (Or.inr h)
+              · exact Or.inl (Or.inl h)
+              · exact Or.inr h
+            · rintro ((h | h) | h)
+              · exact Or.inr (Or.inl h)
+              · exact Or.inl h
+              · exact Or.inr (Or.inr h)
+          · intro x
+            by_cases he : e ∈ visitBase rf own none
+            · have : ld = true := by simpa [he] using hld
+              subst this
+              simp only [if_true, h3, hmem, List.mem_cons]
+              constructor
+              · rintro ⟨h, h'⟩; exact ⟨Or.inr h, fun hb => h' (Or.inr hb)⟩
+              · rintro ⟨h | h, h'⟩
+                · subst h; exact absurd he h'
+                · refine ⟨h, fun hv => hv.elim (fun hxe => ?_) h'⟩
+                  subst hxe; exact h' he
+            · have : ld = false := by simpa [he] using hld
+              subst this
+              simp only [Bool.false_eq_true, if_false, List.mem_cons, h3, hmem]
+              constructor
+              · rintro (h | ⟨h, h'⟩)
+                · subst h; exact ⟨Or.inl rfl, he⟩
+                · exact ⟨Or.inr h, fun hb => h' (Or.inr hb)⟩
+              · rintro ⟨h | h, h'⟩
+                · exact Or.inl h
+                · by_cases hxe : x = e
+                  · exact Or.inl hxe
+                  · exact Or.inr ⟨h, fun hv => hv.elim hxe h'⟩
+          · by_cases he : e ∈ visitBase rf own none
+            · have : ld = true := by simpa [he] using hld
+              subst this
+              simpa using h4
+            · have : ld = false := by simpa [he] using hld
+              subst this
+              simp only [Bool.false_eq_true, if_false]
+              refine List.nodup_cons.2 ⟨?_, h4⟩
+              intro hm
+              exact ((h3 e).1 hm).2 ((hmem e).2 (Or.inl rfl))
+
+theorem distinctPtr_mem (l seen : List Nat) (x : Nat) : x ∈ distinctPtr l seen ↔ x ∈ l ∧ x ∉ seen := by
+  induction l generalizing seen with
+  | nil => simp [distinctPtr]
+  | cons e rest ih =>
+    simp only [distinctPtr]
+    by_cases he : e ∈ seen
+    · simp only [List.contains_eq_mem, he, decide_true, if_true, ih, List.mem_cons]
+      constructor
+      · rintro ⟨h, h'⟩; exact ⟨Or.inr h, h'⟩
+      · rintro ⟨h | h, h'⟩
+        · subst h; exact absurd he h'
+        · exact ⟨h, h'⟩
+    · simp only [List.contains_eq_mem, he, decide_false, Bool.false_eq_true, if_false, List.mem_cons, ih]
+      constructor
+      · rintro (h | ⟨h, h'⟩)
+        · subst h; exact ⟨Or.inl rfl, he⟩
+        · exact ⟨Or.inr h, fun hs => h' (Or.inr hs)⟩
+      · rintro ⟨h | h, h'⟩
+        · exact Or.inl h
+        · by_cases hxe : x = e
+          · exact Or.inl hxe
+          · exact Or.inr ⟨h, fun hv => hv.elim hxe h'⟩
+
+theorem distinctPtr_nodup (l seen : List Nat) : (distinctPtr l seen).Nodup := by
+  induction l generalizing seen with
+  | nil => simp [distinctPtr]
+  | cons e rest ih =>
+    simp only [distinctPtr]
+    split
+    · exact ih _
+    · refine List.nodup_cons.2 ⟨?_, ih _⟩
+      intro hm
+      exact ((distinctPtr_mem rest (e :: seen) e).1 hm).2 (List.mem_cons_self)
+
+/-- a list without repetition is what distinctPointers returns for it -/
+theorem distinctPtr_of_nodup (l seen : List Nat) (hnd : l.Nodup) (hdis : ∀ x, x ∈ l → x ∉ seen) :
+    distinctPtr l seen = l := by
+  induction l generalizing seen with
+  | nil => rfl
+  | cons e rest ih =>
+    have he : e ∉ seen := hdis e (List.mem_cons_self)
+    have hnd' := List.nodup_cons.1 hnd
+    simp only [distinctPtr, List.contains_eq_mem, he, decide_false, Bool.false_eq_true, if_false]
+    rw [ih (e :: seen) hnd'.2]
+    intro x hx hs
+    rcases List.mem_cons.1 hs with h | h
+    · subst h; exact hnd'.1 hx
+    · exact hdis x (List.mem_cons_of_mem _ hx) h
+
+theorem nodupB_iff (l : List Nat) : nodupB l = true ↔ l.Nodup := by
+  induction l with
+  | nil => simp [nodupB]
+  | cons e rest ih =>
+    simp only [nodupB, Bool.and_eq_true, Bool.not_eq_true', List.contains_eq_mem, decide_eq_false_iff_not, ih,
+      List.nodup_cons]
+
 /-! ## the pipeline, unfolded once -/
 
 /-- one relation slot of the pipeline run over `batch` -/
-def slotStep (g : VGraph) (roots : List Nat) (fuel : Nat) (batch : List Nat) : VSt → Nat → VSt :=
-  fun st s => saveAssoc roots (saveBatch g roots fuel) (g.group batch s st.keyed) st
+def slotStep (fx : VFix) (g : VGraph) (roots : List Nat) (fuel : Nat) (batch : List Nat) : VSt → Nat → VSt :=
+  fun st s => saveAssoc fx roots batch (saveBatch fx g roots fuel) (g.group batch s st.keyed) st
 
-theorem saveBatch_zero (g : VGraph) (roots batch : List Nat) (st : VSt) :
-    saveBatch g roots 0 batch st = { st with ok := false } := rfl
+theorem saveBatch_zero (fx : VFix) (g : VGraph) (roots batch : List Nat) (st : VSt) :
+    saveBatch fx g roots 0 batch st = { st with ok := false } := rfl
 
-theorem saveBatch_succ (g : VGraph) (roots : List Nat) (fuel : Nat) (batch : List Nat) (st : VSt) :
-    saveBatch g roots (fuel+1) batch st =
-      let st2 := (List.range g.nbefore).foldl (slotStep g roots fuel batch)
+theorem saveBatch_succ (fx : VFix) (g : VGraph) (roots : List Nat) (fuel : Nat) (batch : List Nat) (st : VSt) :
+    saveBatch fx g roots (fuel+1) batch st =
+      let st2 := (List.range g.nbefore).foldl (slotStep fx g roots fuel batch)
         { st with log := st.log ++ batch.map VEv.before }
-      let st4 := ((List.range (g.nslots - g.nbefore)).map (· + g.nbefore)).foldl (slotStep g roots fuel batch)
+      let st4 := ((List.range (g.nslots - g.nbefore)).map (· + g.nbefore)).foldl (slotStep fx g roots fuel batch)
         { st2 with log := st2.log ++ [VEv.stmt batch], keyed := batch ++ st2.keyed }
       { st4 with log := st4.log ++ batch.map VEv.after } := rfl
 
 /-- a state predicate kept by every step of the pipeline up to the after-hooks holds before the after-hooks -/
-theorem saveBatch_succ_inv2 (P Q : VSt → Prop) (g : VGraph) (roots : List Nat) (fuel : Nat) (batch : List Nat)
-    (st : VSt)
+theorem saveBatch_succ_inv2 (P Q : VSt → Prop) (fx : VFix) (g : VGraph) (roots : List Nat) (fuel : Nat)
+    (batch : List Nat) (st : VSt)
     (hbefore : P { st with log := st.log ++ batch.map VEv.before })
-    (hstep : ∀ st' s, (s < g.nbefore ∨ s < g.nslots) → P st' → P (slotStep g roots fuel batch st' s))
+    (hstep : ∀ st' s, (s < g.nbefore ∨ s < g.nslots) → P st' → P (slotStep fx g roots fuel batch st' s))
     (hstmt : ∀ st' : VSt, P st' → P { st' with log := st'.log ++ [VEv.stmt batch], keyed := batch ++ st'.keyed })
     (hafter : ∀ st' : VSt, P st' → Q { st' with log := st'.log ++ batch.map VEv.after }) :
-    Q (saveBatch g roots (fuel+1) batch st) := by
+    Q (saveBatch fx g roots (fuel+1) batch st) := by
   rw [saveBatch_succ]
   refine hafter _ (vfoldl_inv P _ _ (fun b a ha => hstep b a ?_) _
     (hstmt _ (vfoldl_inv P _ _ (fun b a ha => hstep b a ?_) _ hbefore)))
@@ -154,47 +420,107 @@ theorem saveBatch_succ_inv2 (P Q : VSt → Prop) (g : VGraph) (roots : List Nat)
   · exact Or.inl (List.mem_range.1 ha)
 
 /-- a state predicate kept by every step of the pipeline is kept by the pipeline -/
-theorem saveBatch_succ_inv (P : VSt → Prop) (g : VGraph) (roots : List Nat) (fuel : Nat) (batch : List Nat)
-    (st : VSt)
+theorem saveBatch_succ_inv (P : VSt → Prop) (fx : VFix) (g : VGraph) (roots : List Nat) (fuel : Nat)
+    (batch : List Nat) (st : VSt)
     (hbefore : P { st with log := st.log ++ batch.map VEv.before })
-    (hstep : ∀ st' s, (s < g.nbefore ∨ s < g.nslots) → P st' → P (slotStep g roots fuel batch st' s))
+    (hstep : ∀ st' s, (s < g.nbefore ∨ s < g.nslots) → P st' → P (slotStep fx g roots fuel batch st' s))
     (hstmt : ∀ st' : VSt, P st' → P { st' with log := st'.log ++ [VEv.stmt batch], keyed := batch ++ st'.keyed })
     (hafter : ∀ st' : VSt, P st' → P { st' with log := st'.log ++ batch.map VEv.after }) :
-    P (saveBatch g roots (fuel+1) batch st) :=
-  saveBatch_succ_inv2 P P g roots fuel batch st hbefore hstep hstmt hafter
+    P (saveBatch fx g roots (fuel+1) batch st) :=
+  saveBatch_succ_inv2 P P fx g roots fuel batch st hbefore hstep hstmt hafter
+
+/-- what the guard of saveAssociations guarantees, whichever repairs it carries: `B` = the records registered when
+    the guard ran.  Either everything was registered (skip), or a list `values ⊆ elems` is created that covers every
+    unregistered record of `elems`, holds at least one of them, and afterwards all of `elems` are registered. -/
+theorem saveGuard_spec (fx : VFix) (own elems : List Nat) (v : Option (List Nat)) (hne : elems ≠ []) :
+    let r := saveGuard fx own elems v
+    let B := visitBase fx.root own v
+    r.2.2.isSome = true ∧ (∀ x, x ∈ r.2.2.getD [] ↔ x ∈ elems ∨ x ∈ B) ∧
+    (r.2.1 = true → ∀ e, e ∈ elems → e ∈ B) ∧
+    (r.2.1 = false → (∀ x, x ∈ r.1 → x ∈ elems) ∧ (∀ x, x ∈ elems → x ∈ r.1 ∨ x ∈ B) ∧ (∃ e, e ∈ r.1 ∧ e ∉ B)) ∧
+    (fx.filter = true → (∀ x, x ∈ r.1 → x ∉ B) ∧ r.1.Nodup) ∧
+    (fx.filter = false → r.1 = elems) := by
+  unfold saveGuard
+  cases hf : fx.filter with
+  | true =>
+    obtain ⟨h1, h2, h3, h4⟩ := filterSaved_spec fx.root own elems v hne
+    simp only [if_true]
+    refine ⟨h1, h2, ?_, ?_, fun _ => ⟨fun x hx => ((h3 x).1 hx).2, h4⟩, fun h => by simp at h⟩
+    · intro hemp e he
+      have hnil : (filterSaved fx.root own elems v).1 = [] := by simpa using hemp
+      by_cases hb : e ∈ visitBase fx.root own v
+      · exact hb
+      · have := (h3 e).2 ⟨he, hb⟩
+        rw [hnil] at this; simp at this
+    · intro hemp
+      refine ⟨fun x hx => ((h3 x).1 hx).1, fun x hx => ?_, ?_⟩
+      · by_cases hb : x ∈ visitBase fx.root own v
+        · exact Or.inr hb
+        · exact Or.inl ((h3 x).2 ⟨hx, hb⟩)
+      · cases hq : (filterSaved fx.root own elems v).1 with
+        | nil => simp [hq] at hemp
+        | cons e rest =>
+          exact ⟨e, List.mem_cons_self, ((h3 e).1 (by rw [hq]; exact List.mem_cons_self)).2⟩
+  | false =>
+    have hl := checkSavedR_loaded fx.root own elems v hne
+    have hm := checkSavedR_mem fx.root own elems v
+    simp only [Bool.false_eq_true, if_false]
+    refine ⟨checkSavedR_isSome _ _ _ _, hm, ?_, ?_, fun h => by simp at h, fun _ => trivial⟩
+    · intro hr e he
+      rw [hl, List.all_eq_true] at hr
+      simpa using hr e he
+    · intro hr
+      rw [hl, List.all_eq_false] at hr
+      obtain ⟨e, he1, he2⟩ := hr
+      exact ⟨fun _ h => h, fun x hx => Or.inl hx, e, he1, by simpa using he2⟩
 
 /-- the three ways `saveAssoc` can go -/
-theorem saveAssoc_cases (roots : List Nat) (rec : List Nat → VSt → VSt) (elems : List Nat) (st : VSt)
+theorem saveAssoc_cases (fx : VFix) (roots own : List Nat) (rec : List Nat → VSt → VSt) (elems : List Nat) (st : VSt)
     (C : VSt → Prop)
     (h0 : elems = [] → C st)
-    (h1 : ∀ v' : Option (List Nat), (∀ x, x ∈ v'.getD [] ↔ x ∈ elems ∨ x ∈ st.visited.getD []) →
-      (∀ e, e ∈ elems → e ∈ st.visited.getD []) → C { st with visited := v' })
-    (h2 : ∀ v' : Option (List Nat), (∀ x, x ∈ v'.getD [] ↔ x ∈ elems ∨ x ∈ st.visited.getD []) →
-      (∃ e, e ∈ elems ∧ e ∉ st.visited.getD []) →
-      C (rec elems { st with visited := v', clean := st.clean &&
-        (elems.all (fun e => !(st.visited.getD []).contains e && !roots.contains e) && nodupB elems) })) :
-    C (saveAssoc roots rec elems st) := by
+    (h1 : ∀ v' : Option (List Nat), v'.isSome = true →
+      (∀ x, x ∈ v'.getD [] ↔ x ∈ elems ∨ x ∈ visitBase fx.root own st.visited) →
+      (∀ e, e ∈ elems → e ∈ visitBase fx.root own st.visited) → C { st with visited := v' })
+    (h2 : ∀ (v' : Option (List Nat)) (values : List Nat), v'.isSome = true →
+      (∀ x, x ∈ v'.getD [] ↔ x ∈ elems ∨ x ∈ visitBase fx.root own st.visited) →
+      (∀ x, x ∈ values → x ∈ elems) →
+      (∀ x, x ∈ elems → x ∈ values ∨ x ∈ visitBase fx.root own st.visited) →
+      (∃ e, e ∈ values ∧ e ∉ visitBase fx.root own st.visited) →
+      (fx.filter = true → ∀ x, x ∈ values → x ∉ visitBase fx.root own st.visited) →
+      (fx.filter = true ∨ fx.distinct = true → values.Nodup) →
+      (fx.filter = false → fx.distinct = false → values = elems) →
+      C (rec values (st.enter roots (visitBase fx.root own st.visited) values v'))) :
+    C (saveAssoc fx roots own rec elems st) := by
   unfold saveAssoc
   split
   · rename_i he
     exact h0 (by simpa using he)
   · rename_i he
     have hne : elems ≠ [] := by simpa using he
-    have hl := checkSaved_loaded elems st.visited hne
-    have hm := checkSaved_mem elems st.visited
+    obtain ⟨g1, g2, g3, g4, g5, g6⟩ := saveGuard_spec fx own elems st.visited hne
     simp only []
     split
     · rename_i hr
-      apply h1 _ hm
-      rw [hl, List.all_eq_true] at hr
-      intro e he'
-      simpa using hr e he'
+      exact h1 _ g1 g2 (g3 hr)
     · rename_i hr
-      apply h2 _ hm
-      have hr' : (checkSaved elems st.visited).1 = false := by simpa using hr
-      rw [hl, List.all_eq_false] at hr'
-      obtain ⟨e, he1, he2⟩ := hr'
-      exact ⟨e, he1, by simpa using he2⟩
+      have hr' : (saveGuard fx own elems st.visited).2.1 = false := by simpa using hr
+      obtain ⟨k1, k2, k3⟩ := g4 hr'
+      cases hd : fx.distinct with
+      | false =>
+        simp only [Bool.false_eq_true, if_false]
+        refine h2 _ _ g1 g2 k1 k2 k3 (fun hf => (g5 hf).1) (fun h => ?_) (fun hf _ => g6 hf)
+        rcases h with h | h
+        · exact (g5 h).2
+        · exact absurd h (by simp [hd])
+      | true =>
+        simp only [if_true]
+        have hmem : ∀ x, x ∈ distinctPtr (saveGuard fx own elems st.visited).1 [] ↔
+            x ∈ (saveGuard fx own elems st.visited).1 := fun x => by simp [distinctPtr_mem]
+        refine h2 _ _ g1 g2 (fun x hx => k1 x ((hmem x).1 hx))
+          (fun x hx => (k2 x hx).elim (fun h => Or.inl ((hmem x).2 h)) Or.inr) ?_
+          (fun hf x hx => (g5 hf).1 x ((hmem x).1 hx)) (fun _ => distinctPtr_nodup _ _) (fun _ h => absurd h (by simp [hd]))
+        obtain ⟨e, he1, he2⟩ := k3
+        exact ⟨e, (hmem e).2 he1, he2⟩
 
 /-! ## groups -/
 
@@ -297,10 +623,19 @@ theorem unv_lt (g : VGraph) (V V' : List Nat) (h : ∀ x, x ∈ V → x ∈ V') 
     simp only [Bool.not_eq_true', List.contains_eq_mem, decide_eq_false_iff_not] at hx ⊢
     exact fun hv => hx (h x hv)
 
-theorem saveBatch_ok (g : VGraph) (roots : List Nat) : ∀ (fuel : Nat) (batch : List Nat) (st : VSt),
+theorem enter_ok (st : VSt) (roots B values : List Nat) (v' : Option (List Nat)) :
+    (st.enter roots B values v').ok = st.ok := rfl
+theorem enter_visited (st : VSt) (roots B values : List Nat) (v' : Option (List Nat)) :
+    (st.enter roots B values v').visited = v' := rfl
+theorem enter_log (st : VSt) (roots B values : List Nat) (v' : Option (List Nat)) :
+    (st.enter roots B values v').log = st.log := rfl
+theorem enter_keyed (st : VSt) (roots B values : List Nat) (v' : Option (List Nat)) :
+    (st.enter roots B values v').keyed = st.keyed := rfl
+
+theorem saveBatch_ok (fx : VFix) (g : VGraph) (roots : List Nat) : ∀ (fuel : Nat) (batch : List Nat) (st : VSt),
     st.ok = true → unv g (st.visited.getD []) < fuel →
-    (saveBatch g roots fuel batch st).ok = true ∧
-      ∀ x, x ∈ st.visited.getD [] → x ∈ (saveBatch g roots fuel batch st).visited.getD [] := by
+    (saveBatch fx g roots fuel batch st).ok = true ∧
+      ∀ x, x ∈ st.visited.getD [] → x ∈ (saveBatch fx g roots fuel batch st).visited.getD [] := by
   intro fuel
   induction fuel with
   | zero => intro _ _ _ h; exact absurd h (Nat.not_lt_zero _)
@@ -314,28 +649,30 @@ theorem saveBatch_ok (g : VGraph) (roots : List Nat) : ∀ (fuel : Nat) (batch :
       have hm' : unv g (st'.visited.getD []) ≤ fuel := by
         have := unv_mono g _ _ hsub; omega
       unfold slotStep
-      refine saveAssoc_cases _ _ _ _
+      refine saveAssoc_cases _ _ _ _ _ _
         (fun r => r.ok = true ∧ ∀ x, x ∈ st.visited.getD [] → x ∈ r.visited.getD []) ?_ ?_ ?_
       · intro _; exact ⟨hok', hsub⟩
-      · intro v' hv' _
-        exact ⟨hok', fun x hx => (hv' x).2 (Or.inr (hsub x hx))⟩
-      · intro v' hv' ⟨e, he1, he2⟩
+      · intro v' _ hv' _
+        exact ⟨hok', fun x hx => (hv' x).2 (Or.inr (visited_sub_base _ _ _ _ (hsub x hx)))⟩
+      · intro v' values _ hv' hsubv _ ⟨e, he1, he2⟩ _ _ _
         have hlt : e < g.size := by
-          obtain ⟨m, _, hm⟩ := (group_mem g batch s st'.keyed e).1 he1
+          obtain ⟨m, _, hm⟩ := (group_mem g batch s st'.keyed e).1 (hsubv e he1)
           exact targets_lt g m s e hm
+        have he3 : e ∉ st'.visited.getD [] := fun h => he2 (visited_sub_base _ _ _ _ h)
         have hdrop : unv g (v'.getD []) < unv g (st'.visited.getD []) :=
-          unv_lt g _ _ (fun x hx => (hv' x).2 (Or.inr hx)) e hlt he2 ((hv' e).2 (Or.inl he1))
-        have := ih (g.group batch s st'.keyed)
-          { st' with visited := v', clean := st'.clean &&
-            ((g.group batch s st'.keyed).all (fun e => !(st'.visited.getD []).contains e && !roots.contains e)
-              && nodupB (g.group batch s st'.keyed)) } hok' (by simp only []; omega)
-        exact ⟨this.1, fun x hx => this.2 x ((hv' x).2 (Or.inr (hsub x hx)))⟩
+          unv_lt g _ _ (fun x hx => (hv' x).2 (Or.inr (visited_sub_base _ _ _ _ hx))) e hlt he3
+            ((hv' e).2 (Or.inl (hsubv e he1)))
+        have := ih values (st'.enter roots (visitBase fx.root batch st'.visited) values v') hok'
+          (by rw [enter_visited]; omega)
+        rw [enter_visited] at this
+        exact ⟨this.1, fun x hx => this.2 x ((hv' x).2 (Or.inr (visited_sub_base _ _ _ _ (hsub x hx))))⟩
     · exact fun _ h => h
     · exact fun _ h => h
 
-theorem visit_terminates (g : VGraph) (roots existing : List Nat) : (g.run roots existing).ok = true := by
+theorem visit_terminates (fx : VFix) (g : VGraph) (roots existing : List Nat) :
+    (g.run fx roots existing).ok = true := by
   unfold VGraph.run
-  exact (saveBatch_ok g roots (g.size + 1) roots { keyed := existing } rfl
+  exact (saveBatch_ok fx g roots (g.size + 1) roots { keyed := existing } rfl
     (Nat.lt_succ_of_le (unv_le_size g _))).1
 
 /-! ## counting events -/
@@ -380,9 +717,10 @@ theorem afterCount_stmt (n : Nat) (b : List Nat) : afterCount n [VEv.stmt b] = 0
 
 /-! ## 4. balance -/
 
-theorem saveBatch_balanced (g : VGraph) (roots : List Nat) (n : Nat) : ∀ (fuel : Nat) (batch : List Nat) (st : VSt),
-    afterCount n (saveBatch g roots fuel batch st).log + saveCount n st.log =
-      saveCount n (saveBatch g roots fuel batch st).log + afterCount n st.log := by
+theorem saveBatch_balanced (fx : VFix) (g : VGraph) (roots : List Nat) (n : Nat) :
+    ∀ (fuel : Nat) (batch : List Nat) (st : VSt),
+    afterCount n (saveBatch fx g roots fuel batch st).log + saveCount n st.log =
+      saveCount n (saveBatch fx g roots fuel batch st).log + afterCount n st.log := by
   intro fuel
   induction fuel with
   | zero => intro batch st; simp only [saveBatch_zero]; omega
@@ -392,373 +730,98 @@ theorem saveBatch_balanced (g : VGraph) (roots : List Nat) (n : Nat) : ∀ (fuel
       (fun st' => afterCount n st'.log + saveCount n st.log + batch.count n =
         saveCount n st'.log + afterCount n st.log)
       (fun r => afterCount n r.log + saveCount n st.log = saveCount n r.log + afterCount n st.log)
-      g roots fuel batch st ?_ ?_ ?_ ?_
+      fx g roots fuel batch st ?_ ?_ ?_ ?_
     · simp only [saveCount_append, afterCount_append, saveCount_before, afterCount_before]; omega
     · intro st' s _ hP
       unfold slotStep
-      refine saveAssoc_cases _ _ _ _
+      refine saveAssoc_cases _ _ _ _ _ _
         (fun r => afterCount n r.log + saveCount n st.log + batch.count n =
           saveCount n r.log + afterCount n st.log) ?_ ?_ ?_
       · intro _; exact hP
-      · intro _ _ _; exact hP
-      · intro v' _ _
-        have := ih (g.group batch s st'.keyed)
-          { st' with visited := v', clean := st'.clean &&
-            ((g.group batch s st'.keyed).all (fun e => !(st'.visited.getD []).contains e && !roots.contains e)
-              && nodupB (g.group batch s st'.keyed)) }
-        simp only [] at this ⊢
+      · intro _ _ _ _; exact hP
+      · intro v' values _ _ _ _ _ _ _ _
+        have := ih values (st'.enter roots (visitBase fx.root batch st'.visited) values v')
+        rw [enter_log] at this
         omega
     · intro st' hP
       simp only [saveCount_append, afterCount_append, saveCount_stmt, afterCount_stmt]; omega
     · intro st' hP
       simp only [saveCount_append, afterCount_append, saveCount_after, afterCount_after]; omega
 
-theorem visit_balanced (g : VGraph) (roots existing : List Nat) (n : Nat) :
-    afterCount n (g.run roots existing).log = saveCount n (g.run roots existing).log := by
-  have := saveBatch_balanced g roots n (g.size + 1) roots { keyed := existing }
+theorem visit_balanced (fx : VFix) (g : VGraph) (roots existing : List Nat) (n : Nat) :
+    afterCount n (g.run fx roots existing).log = saveCount n (g.run fx roots existing).log := by
+  have := saveBatch_balanced fx g roots n (g.size + 1) roots { keyed := existing }
   unfold VGraph.run
   simpa [saveCount, afterCount] using this
 
 /-! ## monotonicity: flags only fall, the visit map and the log only grow -/
 
 def VMono (a b : VSt) : Prop :=
-  (b.ok = true → a.ok = true) ∧ (b.clean = true → a.clean = true) ∧
-  (∀ x, x ∈ a.visited.getD [] → x ∈ b.visited.getD []) ∧ (∀ n, saveCount n a.log ≤ saveCount n b.log)
+  (b.ok = true → a.ok = true) ∧
+  ((b.cleanMixed = true → a.cleanMixed = true) ∧ (b.cleanRoot = true → a.cleanRoot = true) ∧
+    (b.cleanDup = true → a.cleanDup = true)) ∧
+  (∀ x, x ∈ a.visited.getD [] → x ∈ b.visited.getD []) ∧ (∀ n, saveCount n a.log ≤ saveCount n b.log) ∧
+  (a.visited.isSome = true → b.visited.isSome = true)
 
-theorem VMono.refl (a : VSt) : VMono a a := ⟨id, id, fun _ h => h, fun _ => Nat.le_refl _⟩
+theorem VMono.refl (a : VSt) : VMono a a := ⟨id, ⟨id, id, id⟩, fun _ h => h, fun _ => Nat.le_refl _, id⟩
 
 theorem VMono.trans {a b c : VSt} (h1 : VMono a b) (h2 : VMono b c) : VMono a c :=
-  ⟨fun h => h1.1 (h2.1 h), fun h => h1.2.1 (h2.2.1 h), fun x h => h2.2.2.1 x (h1.2.2.1 x h),
-    fun n => Nat.le_trans (h1.2.2.2 n) (h2.2.2.2 n)⟩
+  ⟨fun h => h1.1 (h2.1 h),
+    ⟨fun h => h1.2.1.1 (h2.2.1.1 h), fun h => h1.2.1.2.1 (h2.2.1.2.1 h), fun h => h1.2.1.2.2 (h2.2.1.2.2 h)⟩,
+    fun x h => h2.2.2.1 x (h1.2.2.1 x h),
+    fun n => Nat.le_trans (h1.2.2.2.1 n) (h2.2.2.2.1 n), fun h => h2.2.2.2.2 (h1.2.2.2.2 h)⟩
+
+theorem VMono.clean {a b : VSt} (h : VMono a b) : b.clean = true → a.clean = true := by
+  unfold VSt.clean
+  simp only [Bool.and_eq_true]
+  rintro ⟨⟨h1, h2⟩, h3⟩
+  exact ⟨⟨h.2.1.1 h1, h.2.1.2.1 h2⟩, h.2.1.2.2 h3⟩
 
 theorem VMono.log (a : VSt) (l : List VEv) (k : List Nat) :
     VMono a { a with log := a.log ++ l, keyed := k } :=
-  ⟨id, id, fun _ h => h, fun n => by simp only [saveCount_append]; omega⟩
+  ⟨id, ⟨id, id, id⟩, fun _ h => h, fun n => by simp only [saveCount_append]; omega, id⟩
 
-theorem saveAssoc_mono (roots : List Nat) (rec : List Nat → VSt → VSt)
-    (hrec : ∀ b st, VMono st (rec b st)) (elems : List Nat) (st : VSt) :
-    VMono st (saveAssoc roots rec elems st) := by
-  refine saveAssoc_cases _ _ _ _ (fun r => VMono st r) ?_ ?_ ?_
-  · intro _; exact VMono.refl st
-  · intro v' hv' _
-    exact ⟨id, id, fun x hx => (hv' x).2 (Or.inr hx), fun _ => Nat.le_refl _⟩
-  · intro v' hv' _
-    refine VMono.trans ?_ (hrec _ _)
-    refine ⟨id, ?_, fun x hx => (hv' x).2 (Or.inr hx), fun _ => Nat.le_refl _⟩
-    intro h
-    simp only [Bool.and_eq_true] at h
+theorem VMono.enter (st : VSt) (roots B values : List Nat) (v' : Option (List Nat))
+    (hv : ∀ x, x ∈ st.visited.getD [] → x ∈ v'.getD []) (hs : v'.isSome = true) :
+    VMono st (st.enter roots B values v') := by
+  refine ⟨id, ⟨?_, ?_, ?_⟩, hv, fun _ => Nat.le_refl _, fun _ => hs⟩ <;>
+  · intro h
+    simp only [VSt.enter, Bool.and_eq_true] at h
     exact h.1
 
-theorem saveBatch_mono (g : VGraph) (roots : List Nat) : ∀ (fuel : Nat) (batch : List Nat) (st : VSt),
-    VMono st (saveBatch g roots fuel batch st) := by
+theorem saveAssoc_mono (fx : VFix) (roots own : List Nat) (rec : List Nat → VSt → VSt)
+    (hrec : ∀ b st, VMono st (rec b st)) (elems : List Nat) (st : VSt) :
+    VMono st (saveAssoc fx roots own rec elems st) := by
+  refine saveAssoc_cases _ _ _ _ _ _ (fun r => VMono st r) ?_ ?_ ?_
+  · intro _; exact VMono.refl st
+  · intro v' hs hv' _
+    exact ⟨id, ⟨id, id, id⟩, fun x hx => (hv' x).2 (Or.inr (visited_sub_base _ _ _ _ hx)), fun _ => Nat.le_refl _,
+      fun _ => hs⟩
+  · intro v' values hs hv' _ _ _ _ _ _
+    exact VMono.trans (VMono.enter st _ _ _ _ (fun x hx => (hv' x).2 (Or.inr (visited_sub_base _ _ _ _ hx))) hs)
+      (hrec _ _)
+
+theorem saveBatch_mono (fx : VFix) (g : VGraph) (roots : List Nat) : ∀ (fuel : Nat) (batch : List Nat) (st : VSt),
+    VMono st (saveBatch fx g roots fuel batch st) := by
   intro fuel
   induction fuel with
   | zero =>
     intro batch st
     rw [saveBatch_zero]
-    exact ⟨fun h => by simp at h, id, fun _ h => h, fun _ => Nat.le_refl _⟩
+    exact ⟨fun h => by simp at h, ⟨id, id, id⟩, fun _ h => h, fun _ => Nat.le_refl _, id⟩
   | succ fuel ih =>
     intro batch st
-    refine saveBatch_succ_inv (fun st' => VMono st st') g roots fuel batch st ?_ ?_ ?_ ?_
+    refine saveBatch_succ_inv (fun st' => VMono st st') fx g roots fuel batch st ?_ ?_ ?_ ?_
     · exact VMono.log st _ _
     · intro st' s _ hP
-      exact VMono.trans hP (saveAssoc_mono roots _ (fun b st => ih b st) _ _)
+      exact VMono.trans hP (saveAssoc_mono fx roots _ _ (fun b st => ih b st) _ _)
     · intro st' hP
       exact VMono.trans hP (VMono.log st' _ _)
     · intro st' hP
       exact VMono.trans hP (VMono.log st' _ _)
 
-theorem slotStep_mono (g : VGraph) (roots : List Nat) (fuel : Nat) (batch : List Nat) (st : VSt) (s : Nat) :
-    VMono st (slotStep g roots fuel batch st s) :=
-  saveAssoc_mono roots _ (fun b st => saveBatch_mono g roots fuel b st) _ _
-
-/-! ## 3. at most once -/
-
-theorem nodupB_count (l : List Nat) (h : nodupB l = true) (n : Nat) : l.count n ≤ 1 := by
-  induction l with
-  | nil => simp
-  | cons e rest ih =>
-    simp only [nodupB, Bool.and_eq_true, Bool.not_eq_true', List.contains_eq_mem,
-      decide_eq_false_iff_not] at h
-    rw [List.count_cons]
-    have := ih h.2
-    by_cases hen : e = n
-    · subst hen
-      have : rest.count e = 0 := List.count_eq_zero.2 h.1
-      simp [this]
-    · simp [hen]; exact this
-
-/-- every record whose before-hooks fired did so once, and is registered in the visit map or a root -/
-def VOnce (roots : List Nat) (st : VSt) : Prop :=
-  (∀ n, saveCount n st.log ≤ 1) ∧ (∀ n, 1 ≤ saveCount n st.log → n ∈ st.visited.getD [] ∨ n ∈ roots)
-
-theorem saveBatch_once (g : VGraph) (roots : List Nat) : ∀ (fuel : Nat) (batch : List Nat) (st : VSt),
-    (∀ n, batch.count n ≤ 1) →
-    (∀ n, n ∈ batch → saveCount n st.log = 0 ∧ (n ∈ st.visited.getD [] ∨ n ∈ roots)) →
-    VOnce roots st → (saveBatch g roots fuel batch st).clean = true →
-    VOnce roots (saveBatch g roots fuel batch st) := by
-  intro fuel
-  induction fuel with
-  | zero => intro batch st _ _ h _; exact h
-  | succ fuel ih =>
-    intro batch st hnd hpre hinv
-    refine saveBatch_succ_inv (fun st' => st'.clean = true → VOnce roots st') g roots fuel batch st ?_ ?_ ?_ ?_
-    · intro _
-      constructor
-      · intro n
-        simp only [saveCount_append, saveCount_before]
-        by_cases hn : n ∈ batch
-        · have := (hpre n hn).1; have := hnd n; omega
-        · have : batch.count n = 0 := List.count_eq_zero.2 hn
-          have := hinv.1 n; omega
-      · intro n
-        simp only [saveCount_append, saveCount_before]
-        intro h
-        by_cases hn : n ∈ batch
-        · exact (hpre n hn).2
-        · have : batch.count n = 0 := List.count_eq_zero.2 hn
-          exact hinv.2 n (by omega)
-    · intro st' s _ hP
-      unfold slotStep
-      intro hclean
-      have hmono := slotStep_mono g roots fuel batch st' s
-      unfold slotStep at hmono
-      have hI := hP (hmono.2.1 hclean)
-      revert hclean
-      refine saveAssoc_cases _ _ _ _ (fun r => r.clean = true → VOnce roots r) ?_ ?_ ?_
-      · intro _ _; exact hI
-      · intro v' hv' _ _
-        exact ⟨hI.1, fun n hn => (hI.2 n hn).elim (fun h => Or.inl ((hv' n).2 (Or.inr h))) Or.inr⟩
-      · intro v' hv' _ hres
-        have hc := (saveBatch_mono g roots fuel _ _).2.1 hres
-        simp only [Bool.and_eq_true, List.all_eq_true, Bool.not_eq_true', List.contains_eq_mem,
-          decide_eq_false_iff_not] at hc
-        obtain ⟨_, hall, hnodup⟩ := hc
-        refine ih _ _ (nodupB_count _ hnodup) ?_ ?_ hres
-        · intro n hn
-          refine ⟨?_, Or.inl ((hv' n).2 (Or.inl hn))⟩
-          have h1 := hI.2 n
-          have h2 := hall n hn
-          cases hc : saveCount n st'.log with
-          | zero => rfl
-          | succ k =>
-            exact absurd (h1 (by omega)) (by simp only [not_or]; exact h2)
-        · exact ⟨hI.1, fun n hn => (hI.2 n hn).elim (fun h => Or.inl ((hv' n).2 (Or.inr h))) Or.inr⟩
-    · intro st' hP hclean
-      have := hP hclean
-      refine ⟨fun n => ?_, fun n => ?_⟩
-      · simp only [saveCount_append, saveCount_stmt]; exact this.1 n
-      · simp only [saveCount_append, saveCount_stmt]; exact this.2 n
-    · intro st' hP hclean
-      have := hP hclean
-      refine ⟨fun n => ?_, fun n => ?_⟩
-      · simp only [saveCount_append, saveCount_after]; exact this.1 n
-      · simp only [saveCount_append, saveCount_after]; exact this.2 n
-
-theorem visit_at_most_once (g : VGraph) (roots existing : List Nat) :
-    roots.Nodup → (g.run roots existing).clean = true → ∀ n, saveCount n (g.run roots existing).log ≤ 1 := by
-  intro hnd hclean
-  unfold VGraph.run at hclean ⊢
-  refine (saveBatch_once g roots (g.size + 1) roots { keyed := existing } (List.nodup_iff_count.1 hnd)
-    ?_ ?_ hclean).1
-  · intro n hn; exact ⟨by simp [saveCount], Or.inr hn⟩
-  · exact ⟨fun n => by simp [saveCount], fun n h => by simp [saveCount] at h⟩
-
-/-! ## 5. completeness -/
-
-theorem vfoldl_hit {α β : Type} (R : β → β → Prop) (refl : ∀ b, R b b)
-    (trans : ∀ a b c, R a b → R b c → R a c) (f : β → α → β) (hR : ∀ b a, R b (f b a))
-    (A : β → Prop) (hA : ∀ a b, A a → R a b → A b) (s : α) (hit : ∀ b, A (f b s))
-    (l : List α) (hs : s ∈ l) (b : β) : A (l.foldl f b) := by
-  induction l generalizing b with
-  | nil => simp at hs
-  | cons a l ih =>
-    simp only [List.foldl_cons]
-    rcases List.mem_cons.1 hs with h | h
-    · subst h
-      exact hA _ _ (hit b) (vfoldl_rel R refl trans f l hR _)
-    · exact ih h _
-
-theorem saveAssoc_registers (roots : List Nat) (rec : List Nat → VSt → VSt)
-    (hrec : ∀ b st, VMono st (rec b st)) (elems : List Nat) (st : VSt) (t : Nat) (ht : t ∈ elems) :
-    t ∈ (saveAssoc roots rec elems st).visited.getD [] := by
-  refine saveAssoc_cases _ _ _ _ (fun r => t ∈ r.visited.getD []) ?_ ?_ ?_
-  · intro h; subst h; simp at ht
-  · intro v' hv' _; exact (hv' t).2 (Or.inl ht)
-  · intro v' hv' _; exact (hrec _ _).2.2.1 t ((hv' t).2 (Or.inl ht))
-
-theorem slotStep_registers (g : VGraph) (roots : List Nat) (fuel : Nat) (batch : List Nat) (st : VSt)
-    (s m t : Nat) (hm : m ∈ batch) (ht : t ∈ g.targets m s) :
-    t ∈ (slotStep g roots fuel batch st s).visited.getD [] :=
-  saveAssoc_registers roots _ (fun b st => saveBatch_mono g roots fuel b st) _ _ t
-    ((group_mem g batch s st.keyed t).2 ⟨m, hm, ht⟩)
-
-theorem slotLoop_mono (g : VGraph) (roots : List Nat) (fuel : Nat) (batch : List Nat) (l : List Nat) (st : VSt) :
-    VMono st (l.foldl (slotStep g roots fuel batch) st) :=
-  vfoldl_rel VMono VMono.refl (fun _ _ _ h1 h2 => VMono.trans h1 h2) _ l
-    (fun b a => slotStep_mono g roots fuel batch b a) st
-
-theorem slotLoop_registers (g : VGraph) (roots : List Nat) (fuel : Nat) (batch : List Nat) (l : List Nat)
-    (st : VSt) (s m t : Nat) (hs : s ∈ l) (hm : m ∈ batch) (ht : t ∈ g.targets m s) :
-    t ∈ (l.foldl (slotStep g roots fuel batch) st).visited.getD [] :=
-  vfoldl_hit VMono VMono.refl (fun _ _ _ h1 h2 => VMono.trans h1 h2) _
-    (fun b a => slotStep_mono g roots fuel batch b a)
-    (fun b => t ∈ b.visited.getD []) (fun _ _ ha hab => hab.2.2.1 t ha) s
-    (fun b => slotStep_registers g roots fuel batch b s m t hm ht) l hs st
-
-/-- after the pipeline ran over `batch`, every record held by a relation of a member of `batch` is registered -/
-theorem saveBatch_succ_closure (g : VGraph) (roots : List Nat) (fuel : Nat) (batch : List Nat) (st : VSt)
-    (m s t : Nat) (hm : m ∈ batch) (hs : s < g.nslots) (ht : t ∈ g.targets m s) :
-    t ∈ (saveBatch g roots (fuel+1) batch st).visited.getD [] := by
-  rw [saveBatch_succ]
-  simp only []
-  by_cases hsb : s < g.nbefore
-  · apply (slotLoop_mono g roots fuel batch _ _).2.2.1
-    exact slotLoop_registers g roots fuel batch _ _ s m t (List.mem_range.2 hsb) hm ht
-  · apply slotLoop_registers g roots fuel batch _ _ s m t _ hm ht
-    exact List.mem_map.2 ⟨s - g.nbefore, List.mem_range.2 (by omega), by omega⟩
-
-/-- record `x` was saved and everything its relations hold is registered -/
-def VDone (g : VGraph) (r : VSt) (x : Nat) : Prop :=
-  1 ≤ saveCount x r.log ∧ ∀ s, s < g.nslots → ∀ t, t ∈ g.targets x s → t ∈ r.visited.getD []
-
-theorem VDone.mono {g : VGraph} {a b : VSt} {x : Nat} (h : VMono a b) : VDone g a x → VDone g b x :=
-  fun hd => ⟨Nat.le_trans hd.1 (h.2.2.2 x), fun s hs t ht => h.2.2.1 t (hd.2 s hs t ht)⟩
-
-theorem saveBatch_complete (g : VGraph) (roots : List Nat) : ∀ (fuel : Nat) (batch : List Nat) (st : VSt),
-    (saveBatch g roots fuel batch st).ok = true →
-    (∀ m, m ∈ batch → VDone g (saveBatch g roots fuel batch st) m) ∧
-    (∀ x, x ∈ (saveBatch g roots fuel batch st).visited.getD [] → x ∉ st.visited.getD [] →
-      VDone g (saveBatch g roots fuel batch st) x) := by
-  intro fuel
-  induction fuel with
-  | zero => intro batch st h; simp [saveBatch_zero] at h
-  | succ fuel ih =>
-    intro batch st hok
-    have hmove : ∀ a b : VSt, VMono a b → (∀ x, x ∈ b.visited.getD [] → x ∈ a.visited.getD []) →
-        ((∀ m, m ∈ batch → 1 ≤ saveCount m a.log) ∧
-          (∀ x, x ∈ a.visited.getD [] → x ∉ st.visited.getD [] → VDone g a x)) →
-        ((∀ m, m ∈ batch → 1 ≤ saveCount m b.log) ∧
-          (∀ x, x ∈ b.visited.getD [] → x ∉ st.visited.getD [] → VDone g b x)) := by
-      intro a b hab hV hbody
-      exact ⟨fun m hm => Nat.le_trans (hbody.1 m hm) (hab.2.2.2 m),
-        fun x hx hx' => VDone.mono hab (hbody.2 x (hV x hx) hx')⟩
-    have main := saveBatch_succ_inv
-      (fun st' => st'.ok = true → (∀ m, m ∈ batch → 1 ≤ saveCount m st'.log) ∧
-        (∀ x, x ∈ st'.visited.getD [] → x ∉ st.visited.getD [] → VDone g st' x))
-      g roots fuel batch st ?_ ?_ ?_ ?_ hok
-    · refine ⟨fun m hm => ⟨main.1 m hm, fun s hs t ht => ?_⟩, main.2⟩
-      exact saveBatch_succ_closure g roots fuel batch st m s t hm hs ht
-    · intro _
-      refine ⟨fun m hm => ?_, fun x hx hx' => absurd hx hx'⟩
-      simp only [saveCount_append, saveCount_before]
-      have : 1 ≤ batch.count m := List.one_le_count_iff.2 hm
-      omega
-    · intro st' s _ hP
-      have hmono := slotStep_mono g roots fuel batch st' s
-      unfold slotStep at hmono ⊢
-      intro hok'
-      have hP' := hP (hmono.1 hok')
-      revert hok'
-      refine saveAssoc_cases _ _ _ _
-        (fun r => r.ok = true → (∀ m, m ∈ batch → 1 ≤ saveCount m r.log) ∧
-          (∀ x, x ∈ r.visited.getD [] → x ∉ st.visited.getD [] → VDone g r x)) ?_ ?_ ?_
-      · intro _ _; exact hP'
-      · intro v' hv' hall _
-        refine hmove st' _ ⟨id, id, fun x hx => (hv' x).2 (Or.inr hx), fun _ => Nat.le_refl _⟩ ?_ hP'
-        intro x hx
-        exact ((hv' x).1 hx).elim (hall x) id
-      · intro v' hv' _ hres
-        have hI := ih _ _ hres
-        have M2 := saveBatch_mono g roots fuel (g.group batch s st'.keyed)
-          { st' with visited := v', clean := st'.clean &&
-            ((g.group batch s st'.keyed).all (fun e => !(st'.visited.getD []).contains e && !roots.contains e)
-              && nodupB (g.group batch s st'.keyed)) }
-        have M1 : ∀ c : Bool, VMono st' { st' with visited := v', clean := st'.clean && c } := fun c =>
-          ⟨id, fun h => by simp only [Bool.and_eq_true] at h; exact h.1,
-            fun x hx => (hv' x).2 (Or.inr hx), fun _ => Nat.le_refl _⟩
-        have M := VMono.trans (M1 _) M2
-        refine ⟨fun m hm => Nat.le_trans (hP'.1 m hm) (M.2.2.2 m), fun x hx hx' => ?_⟩
-        by_cases hx'' : x ∈ v'.getD []
-        · rcases (hv' x).1 hx'' with h | h
-          · exact hI.1 x h
-          · exact VDone.mono M (hP'.2 x h hx')
-        · exact hI.2 x hx hx''
-    · intro st' hP hok'
-      exact hmove st' _ (VMono.log st' _ _) (fun _ h => h) (hP hok')
-    · intro st' hP hok'
-      exact hmove st' _ (VMono.log st' _ _) (fun _ h => h) (hP hok')
-
-theorem visit_complete (g : VGraph) (roots existing : List Nat) (n : Nat) :
-    VReach g roots n → 1 ≤ saveCount n (g.run roots existing).log := by
-  intro hreach
-  have hok := visit_terminates g roots existing
-  unfold VGraph.run at hok ⊢
-  have hc := saveBatch_complete g roots (g.size + 1) roots { keyed := existing } hok
-  have hdone : ∀ x, x ∈ roots ∨ x ∈ (saveBatch g roots (g.size + 1) roots { keyed := existing }).visited.getD [] →
-      VDone g (saveBatch g roots (g.size + 1) roots { keyed := existing }) x := by
-    intro x hx
-    rcases hx with h | h
-    · exact hc.1 x h
-    · exact hc.2 x h (by simp)
-  have : n ∈ roots ∨ n ∈ (saveBatch g roots (g.size + 1) roots { keyed := existing }).visited.getD [] := by
-    induction hreach with
-    | root h => exact Or.inl h
-    | step _ hs ht ihm => exact Or.inr ((hdone _ ihm).2 _ hs _ ht)
-  exact (hdone n this).1
-
-/-! ## 6. soundness -/
-
-theorem saveBatch_sound (g : VGraph) (roots : List Nat) (hslots : g.nbefore ≤ g.nslots) :
-    ∀ (fuel : Nat) (batch : List Nat) (st : VSt),
-    (∀ m, m ∈ batch → VReach g roots m) → (∀ n, 1 ≤ saveCount n st.log → VReach g roots n) →
-    ∀ n, 1 ≤ saveCount n (saveBatch g roots fuel batch st).log → VReach g roots n := by
-  intro fuel
-  induction fuel with
-  | zero => intro batch st _ h; exact h
-  | succ fuel ih =>
-    intro batch st hb hst
-    refine saveBatch_succ_inv (fun st' => ∀ n, 1 ≤ saveCount n st'.log → VReach g roots n)
-      g roots fuel batch st ?_ ?_ ?_ ?_
-    · intro n
-      simp only [saveCount_append, saveCount_before]
-      intro h
-      by_cases hn : n ∈ batch
-      · exact hb n hn
-      · have : batch.count n = 0 := List.count_eq_zero.2 hn
-        exact hst n (by omega)
-    · intro st' s hs hP
-      have hs' : s < g.nslots := by omega
-      unfold slotStep
-      refine saveAssoc_cases _ _ _ _ (fun r => ∀ n, 1 ≤ saveCount n r.log → VReach g roots n) ?_ ?_ ?_
-      · intro _; exact hP
-      · intro _ _ _; exact hP
-      · intro v' _ _
-        refine ih _ _ ?_ hP
-        intro e he
-        obtain ⟨m, hm, hme⟩ := (group_mem g batch s st'.keyed e).1 he
-        exact VReach.step (hb m hm) hs' hme
-    · intro st' hP n
-      simp only [saveCount_append, saveCount_stmt]; exact hP n
-    · intro st' hP n
-      simp only [saveCount_append, saveCount_after]; exact hP n
-
-theorem visit_sound (g : VGraph) (roots existing : List Nat) (n : Nat) (hslots : g.nbefore ≤ g.nslots) :
-    1 ≤ saveCount n (g.run roots existing).log → VReach g roots n := by
-  unfold VGraph.run
-  exact saveBatch_sound g roots hslots (g.size + 1) roots { keyed := existing }
-    (fun m hm => VReach.root hm) (fun n h => by simp [saveCount] at h) n
-
-/-- without `nbefore ≤ nslots` soundness fails: the belongs-to loop runs slots `≥ nslots` too -/
-def visitG5 : VGraph := { size := 2, nbefore := 1, nslots := 0, adj := [[[1]], []], dedupe := [] }
-
-theorem visit_sound_needs_slots :
-    saveCount 1 (visitG5.run [0] []).log = 1 ∧ ¬ VReach visitG5 [0] 1 := by
-  refine ⟨by decide, ?_⟩
-  intro h
-  generalize hx : (1 : Nat) = x at h
-  cases h with
-  | root h => subst hx; simp at h
-  | step _ hs _ => exact absurd hs (Nat.not_lt_zero _)
+theorem slotStep_mono (fx : VFix) (g : VGraph) (roots : List Nat) (fuel : Nat) (batch : List Nat) (st : VSt)
+    (s : Nat) : VMono st (slotStep fx g roots fuel batch st s) :=
+  saveAssoc_mono fx roots _ _ (fun b st => saveBatch_mono fx g roots fuel b st) _ _
 
 end Gorm
